@@ -15,11 +15,26 @@ SAN = ['-g', '-O1', '-fsanitize=address,undefined', '-fno-sanitize-recover=undef
 _lib = {}
 
 
+def _tree_hash():
+    h = hashlib.sha1()
+    for f in sorted(glob.glob(os.path.join(core.REPO, 'src', '*')) + glob.glob(os.path.join(core.REPO, 'include', 'asl', '*'))):
+        if os.path.isfile(f):
+            h.update(f.encode()); h.update(open(f, 'rb').read())
+    return h.hexdigest()[:16]
+
+
 def build_native_lib(work):
-    """all of /repo/src (working tree) with sanitizers -> work/native/libaslsan.a"""
+    """all of /repo/src (working tree) with sanitizers -> libaslsan.a.  Built once per content of src/ + include/ (cache under .work/native_cache/<hash>,
+    rebuilt from the working tree whenever a file differs), so that replays on the same tree do not recompile the library."""
     if work in _lib:
         return _lib[work]
-    d = os.path.join(work, 'native')
+    key = _tree_hash()
+    cache = os.path.join(core.VERIF, '.work', 'native_cache', key)
+    lib = os.path.join(cache, 'libaslsan.a')
+    if os.path.exists(lib):
+        _lib[work] = lib
+        return lib
+    d = cache + '.tmp%d' % os.getpid()
     os.makedirs(d, exist_ok=True)
     srcs = [s for s in sorted(glob.glob(os.path.join(core.REPO, 'src', '*.cpp'))) if not s.endswith('TlsSocket.cpp')]
 
@@ -32,8 +47,20 @@ def build_native_lib(work):
     bad = [r for r in res if r[1] != 0]
     if bad:
         raise RuntimeError('native build failed: ' + bad[0][2][-500:])
-    lib = os.path.join(d, 'libaslsan.a')
-    subprocess.check_call(['ar', 'rcs', lib] + [r[0] for r in res])
+    tmplib = os.path.join(d, 'libaslsan.a')
+    subprocess.check_call(['ar', 'rcs', tmplib] + [r[0] for r in res])
+    for r in res:
+        os.remove(r[0])
+    try:
+        os.rename(d, cache)
+    except OSError:
+        pass      # another run finished the same build first
+    lib = lib if os.path.exists(lib) else tmplib
+    # keep the cache small: the 6 most recent trees
+    olds = sorted(glob.glob(os.path.join(core.VERIF, '.work', 'native_cache', '*')), key=os.path.getmtime)
+    for o in olds[:-6]:
+        import shutil
+        shutil.rmtree(o, ignore_errors=True)
     _lib[work] = lib
     return lib
 
@@ -44,6 +71,7 @@ def run_native(driver_rel, args, work, timeout=60):
     report (non-zero exit) also counts."""
     lib = build_native_lib(work)
     src = os.path.join(core.VERIF, 'replay', driver_rel)
+    os.makedirs(os.path.join(work, 'native'), exist_ok=True)
     exe = os.path.join(work, 'native', re.sub(r'\W+', '_', driver_rel) + '.exe')
     p = subprocess.run(['g++', src, '-o', exe, '-I', os.path.join(core.VERIF, 'spec'), '-I', os.path.join(core.VERIF, 'prelude')] + SAN +
                        [lib, '-lpthread', '-ldl'], stdout=subprocess.PIPE, stderr=subprocess.STDOUT)
@@ -155,6 +183,22 @@ def battery(driver, args, timeout=300):
     def rep(r, o, work):
         return {'concretisation': 'inputs not taken from the trace (the unit verifies a step / ghost model): native small-scope search "%s" run on the real library instead' % ' '.join(str(a) for a in args),
                 'native': run_native(driver, args, work, timeout=timeout)}
+    return rep
+
+
+def first_of(*recipes):
+    """tries the recipes in order and keeps the first that reproduces on the real library (else the first one's record)"""
+    def rep(r, o, work):
+        first = None
+        for rc in recipes:
+            out = rc(r, o, work)
+            if first is None:
+                first = out
+            if out.get('native', {}).get('reproduced'):
+                if out is not first:
+                    out['earlier_attempt'] = {k: v for k, v in first.items() if k != 'native'}
+                return out
+        return first
     return rep
 
 
